@@ -119,7 +119,7 @@ func newScriptedServer(cfg sessionCfg) *scriptedServer {
 	}
 	if cfg.sa != "none" {
 		s.SessionAuthHandler = func(conn net.Conn) (interface{}, error) {
-			mc := conn.(*memConn)
+			mc, _ := conn.(*memConn)
 			ss.mu.Lock()
 			tok := ss.byConn[conn]
 			ss.mu.Unlock()
